@@ -1,5 +1,6 @@
 import Driver.Common
 import CoapVerif.Model.Server
+import Driver.C10Streams
 /-!
 Driver for C10.  `model`: `keyeq …` from `normLocal`; other lines `n/a`.
 `judge`: `<input> | <observed>`: spec key equality for `keyeq`; for `serve`: every well-behaved client received all its
@@ -134,12 +135,14 @@ def tableSpec (ws : List String) : String :=
       (live, acc.2 ++ [if ids.isEmpty then "-" else ",".intercalate (ids.map toString)])) (([] : List Nat), [])
     "t " ++ " ".intercalate outs
 
+
 def handle (mode : String) (line : String) : String :=
   match line.splitOn " | " with
   | [inp] =>
     if mode == "model" then
       match words inp with
       | "table" :: evs => tableModel evs
+      | "streams" :: _ :: evs => Streams.model evs
       | ["discover", n] => match n.toNat? with | some n => discoverModel n false | none => "bad-op"
       | ["discover", n, "dup"] => match n.toNat? with | some n => discoverModel n true | none => "bad-op"
       | ["discover", n, "failsend"] => match n.toNat? with | some n => discoverFailModel n | none => "bad-op"
@@ -156,6 +159,8 @@ def handle (mode : String) (line : String) : String :=
       match keyeqSpec ws with
       | some b => if (if b then "1" else "0") == obs then "ok" else s!"violates key equality: expected {if b then 1 else 0}"
       | none => "bad-op"
+    | "streams" :: _ :: evs => Streams.judge evs obs
+    | "hk" :: _ => Streams.judgeHk obs
     | "table" :: evs =>
       let exp := tableSpec evs
       if obs == exp then "ok" else s!"violates peer table: expected `{exp}` (one live entry per peer whose latest event is a well-formed datagram or a server-initiated connection)"
